@@ -110,13 +110,68 @@ def run(rep):
     bad = bad.replace("txt = &txt[cut + 1..];", "return quoted_string(w, &txt[cut + 1..]);")
     recursive, _ = _bare_verdict(rep, "canary_rec", bad, r"fn quoted_string")
     rep.guard("canary: a tail-recursive variant of quoted_string must be rejected by the termination rule", recursive)
-    rep.not_covered += ["graph_rec (sparql/src/exec.rs)", "populate_list / mark_list_node (jsonld/src/serializer/engine.rs)",
-                        "Turtle pretty printer, parsers, frame sizes"]
-    rep.notes.append("six recursion sites under obligation; stack bytes themselves are not observable by the verifier")
+    run_depth_stand_ins(rep)
+    rep.not_covered += ["parsers (dependencies)", "frame sizes; recursion whose frames are so small that N items fit in 2 MiB",
+                        "the Turtle / TriG pretty printer in the quick tier (quadratic in dev builds: thorough tier only, N = 3000)"]
+    rep.notes.append("six recursion sites under obligation (Verus); the sites neither verifier reaches are bounded native stand-ins: N items on a 2 MiB stack")
+
+
+# (site, N, tiers, functions it stands in for)
+DEPTH_SITES = [
+    ("filter", 200000, ("quick", "thorough"), "FilterSource / FilterTripleSource / FilterQuadSource :: try_for_some_item (api/src/source/filter.rs), Source::for_each_item, collect_triples, insert_all"),
+    ("filter_map", 200000, ("quick", "thorough"), "FilterMapSource::try_for_some_item, FilterMapSourceIterator::next (api/src/source/filter_map.rs)"),
+    ("map", 200000, ("quick", "thorough"), "MapSource::try_for_some_item, MapSourceIterator::next (api/src/source/map.rs)"),
+    ("sparql-graphs", 100000, ("quick", "thorough"), "ExecState::graph / graph_rec (sparql/src/exec.rs): GRAPH ?g over N named graphs"),
+    ("sparql-bgp", 100000, ("quick", "thorough"), "Bgp evaluation (sparql/src/bgp.rs, exec.rs): N solutions, N/2 rows rejected by the second pattern, N rows rejected by a FILTER"),
+    ("sparql-union", 100000, ("quick", "thorough"), "DISTINCT, ORDER BY, OFFSET/LIMIT, UNION, ASK over N solutions (sparql/src/exec.rs)"),
+    ("jsonld-list", 100000, ("quick", "thorough"), "Engine::mark_list_node, populate_list (jsonld/src/serializer/engine.rs): one rdf:List of N items"),
+    ("jsonld-many", 100000, ("quick", "thorough"), "JSON-LD serializer engine over N flat quads in N/10 named graphs"),
+    ("turtle-list", 3000, ("thorough",), "Turtle pretty printer (turtle/src/serializer/_pretty.rs): one collection of N items"),
+    ("turtle-many", 3000, ("thorough",), "Turtle / TriG pretty printer: N flat statements, N subjects, N/10 named graphs"),
+]
+
+
+def run_depth_stand_ins(rep):
+    """Bounded native stand-ins for the recursion sites neither verifier reaches (closures over GATs, HashMap-based
+    engines, boxed iterator chains): the real code processes N flat items on a 2 MiB stack in a dev build; a stack
+    overflow kills the process.  One process per site."""
+    from concurrent.futures import ThreadPoolExecutor
+    sites = [s for s in DEPTH_SITES if rep.tier in s[2]]
+    try:
+        binp, dst = native.build_bin(ID, "c16b")
+    except Undecided as e:
+        rep.undecided.append("c16 depth stand-ins: %s" % e)
+        return
+
+    def one(s):
+        return s, core.sh([binp, s[0], str(s[1])], timeout=1500)
+    with ThreadPoolExecutor(max_workers=5) as ex:
+        results = list(ex.map(one, sites))
+    import shutil
+    shutil.rmtree(dst, ignore_errors=True)
+    for (name, n, _, fns), (rc, out, err, secs) in results:
+        obl = "native:c16_depth_" + name.replace("-", "_")
+        overflow = rc in (-6, -11, 134, 139) or "overflowed its stack" in err
+        if rc == 0 or overflow:
+            rep.obligation(obl, "native run on a 2 MiB stack (rustc dev build, real crates)", rc == 0, seconds=secs,
+                           detail="%s items, flat data | functions: %s | %s" % (n, fns, out.strip()[-120:]), complete=False,
+                           bound="N = %d items on a 2 MiB stack, dev profile" % n)
+            rep.functions.append(fns + " [bounded native stand-in]")
+            if overflow:
+                rep.violation(obl, "stack overflow\n" + (err + out)[-800:], witness="%s with %d items on a 2 MiB stack (dev build)" % (name, n),
+                              replay_text="./check C16 --replay <this file>   # replay_src/c16b %s %d" % (name, n), confirmed=True)
+        else:
+            rep.undecided.append("%s: stand-in did not run (rc=%s): %s" % (obl, rc, (err or out)[-300:].replace("\n", " | ")))
 
 
 def replay(path):
     rec = json.load(open(path))
+    m2 = re.search(r"replay_src/c16b ([\w-]+) (\d+)", rec.get("replay") or "")
+    if m2:
+        rc, out, err, secs = native.run_replay(ID, "c16b", [m2.group(1), m2.group(2)])
+        print((out + err).strip()[-600:])
+        print("replay of %s: %s" % (rec["obligation"], "VIOLATION REPRODUCED (stack overflow)" if rc != 0 else "completed without overflow"))
+        return 1 if rc != 0 else 0
     m = re.search(r"replay_src/c16 (\w+)", rec.get("replay") or "")
     arg = m.group(1) if m else "spo"
     rc, out, err, secs = native.run_replay(ID, "c16", [arg])
